@@ -26,6 +26,7 @@
   Helper lemmas: `BklProofs/Lemmas/Cycles.lean`.
 -/
 import BklProofs.Lemmas.Cycles
+import BklProofs.Lemmas.CyclesFS
 import BklProofs.Lemmas.C08Cycles
 import BklProofs.Lemmas.C08Errors
 set_option linter.unusedVariables false
@@ -431,7 +432,7 @@ theorem C08_parent_cycle_list (fs : FS) (cfg : RootCfg) (ps : List Comps)
 theorem C08_parent_cycle (fs : FS) (cfg : RootCfg) (p q : Comps) (docsP docsQ : List Val)
     (hlp : ∀ fid, loadFile fs cfg p fid = .ok docsP)
     (hlq : ∀ fid, loadFile fs cfg q fid = .ok docsQ)
-    (hpp : fileParents fs p docsP = .ok [q]) (hpq : fileParents fs q docsQ = .ok [p])
+    (hpp : fileParents fs cfg p docsP = .ok [q]) (hpq : fileParents fs cfg q docsQ = .ok [p])
     (fuel : Nat) :
     loadFileAndParents fs cfg fuel p none [] [] = .error .circularRef := by
   refine C08_parent_cycle_list fs cfg [p, q] ?_ fuel p (by simp)
@@ -447,8 +448,8 @@ theorem C08_parent_cycle (fs : FS) (cfg : RootCfg) (p q : Comps) (docsP docsQ : 
 example :
     (∀ fid, loadFile fsPQ cfgPQ ["w", "p.yaml"] fid = .ok [.map [("$parent", .str "q")]]) ∧
     (∀ fid, loadFile fsPQ cfgPQ ["w", "q.yaml"] fid = .ok [.map [("$parent", .str "p")]]) ∧
-    fileParents fsPQ ["w", "p.yaml"] [.map [("$parent", .str "q")]] = .ok [["w", "q.yaml"]] ∧
-    fileParents fsPQ ["w", "q.yaml"] [.map [("$parent", .str "p")]] = .ok [["w", "p.yaml"]] :=
+    fileParents fsPQ cfgPQ ["w", "p.yaml"] [.map [("$parent", .str "q")]] = .ok [["w", "q.yaml"]] ∧
+    fileParents fsPQ cfgPQ ["w", "q.yaml"] [.map [("$parent", .str "p")]] = .ok [["w", "p.yaml"]] :=
   ⟨fsPQ_load_p, fsPQ_load_q, fsPQ_parents_p, fsPQ_parents_q⟩
 
 /-- … so loading `/w/p.yaml` (as `bkl /w/p.yaml` does, with `loadFuel`) reports the cycle -/
@@ -888,7 +889,6 @@ theorem C08_repeat_negative_list_doc (docs : List Val) (env : Vars) (data : Val)
 example : popListMapValue [.map [("$repeat", .int (-1))], .int 5] "$repeat" =
     .ok (.int (-1), [.int 5]) := by
   simp [popListMapValue, fget, Val.isNull, R_pure]
-  rfl
 
 /-- Document level, named counts `$repeat: {i: …, j: …}`: one count ≤ 0 (all counts integers)
     empties the cartesian product. -/
